@@ -12,18 +12,31 @@ def Step.isCaller : Step → Bool
   | _ => false
 
 /-- steps of the writer goroutine of stream `b` and of its remote (how fast / whether `MsgSend`
-returns, whether it fails, whether the peer context is cancelled) -/
+returns, whether it fails, whether the peer context is cancelled, how long `Close()` takes) -/
 def Step.isWriterOf (b : Nat) : Step → Bool
-  | .take sid | .complete sid | .ctxClose sid | .writerExit sid | .cancel sid | .setGated sid _ => sid = b
+  | .take sid | .complete sid | .ctxClose sid | .writerExit sid | .cancel sid | .setGated sid _
+  | .closeRemote sid | .setCloseBlocks sid _ => sid = b
   | _ => false
 
 /-- the stream a step is about -/
 def Step.subject : Step → Option Nat
   | .take sid | .complete sid | .ctxClose sid | .writerExit sid | .cancel sid | .setGated sid _
-  | .readClose sid | .poolRemove sid => some sid
+  | .closeRemote sid | .setCloseBlocks sid _ | .readClose sid | .poolRemove sid => some sid
   | _ => none
 
 /-- work left in a snapshotted call -/
 def Call.todo (c : Call) : Nat := c.groups.flatten.length + c.groups.length
+
+/-- macro schedules used for isolation: calls are not split into snapshot + writes, and the handler
+opens no stream -/
+def MStep.ok : MStep → Bool
+  | .atom (.snapBroadcast ..) | .atom (.snapSendById ..) | .atom (.callWrite ..) => false
+  | .atom (.setPlan _ (some _)) => false
+  | _ => true
+
+def MStep.isWriterOf (b : Nat) : MStep → Bool
+  | .atom st => st.isWriterOf b
+  | _ => false
+
 
 end AnySync.StreamPool
